@@ -364,6 +364,10 @@ V("C09", "early-out before the component test", "R09.3", (GEO, "    if n_cluster
 V("C12", "A centring sent to the C matrix", "R12.1", (SYM, "        primitive_transformations = {\n            \"A\": np.array(", "        if centring in [\"A\", \"B\"]:\n            centring = \"C\"\n\n        primitive_transformations = {\n            \"A\": np.array("))
 V("C12", "inverse permutation through a lookup table", "R12.4", (SYM, "        new_wyckoffs = []\n        for old_wyckoff in spglib_wyckoffs:\n            new_wyckoff = permutations[old_wyckoff]\n            new_wyckoffs.append(new_wyckoff)\n\n        return np.array(new_wyckoffs)",
    "        lookup = {letter: i for i, letter in enumerate(permutations.values())}\n        letters = np.array(list(permutations.keys()))\n        indices = [lookup[old_wyckoff] for old_wyckoff in spglib_wyckoffs]\n\n        return letters[indices]"))
+V("C12", "masked substitution reads its mask from the array it rewrites", "R12.4", (SYM, "        new_wyckoffs = []\n        for old_wyckoff in spglib_wyckoffs:\n            new_wyckoff = permutations[old_wyckoff]\n            new_wyckoffs.append(new_wyckoff)\n\n        return np.array(new_wyckoffs)",
+   "        new_wyckoffs = spglib_wyckoffs.copy()\n        for old_wyckoff, new_wyckoff in permutations.items():\n            new_wyckoffs[new_wyckoffs == old_wyckoff] = new_wyckoff\n\n        return new_wyckoffs"))
+V("C12", "twin: masked substitution with the mask from the untouched letters", "silent", (SYM, "        new_wyckoffs = []\n        for old_wyckoff in spglib_wyckoffs:\n            new_wyckoff = permutations[old_wyckoff]\n            new_wyckoffs.append(new_wyckoff)\n\n        return np.array(new_wyckoffs)",
+   "        new_wyckoffs = spglib_wyckoffs.copy()\n        for old_wyckoff, new_wyckoff in permutations.items():\n            new_wyckoffs[spglib_wyckoffs == old_wyckoff] = new_wyckoff\n\n        return new_wyckoffs"))
 V("C12", "twin: comprehension instead of the loop", "silent", (SYM, "        new_wyckoffs = []\n        for old_wyckoff in spglib_wyckoffs:\n            new_wyckoff = permutations[old_wyckoff]\n            new_wyckoffs.append(new_wyckoff)\n\n        return np.array(new_wyckoffs)",
    "        new_wyckoffs = [permutations[old_wyckoff] for old_wyckoff in spglib_wyckoffs]\n\n        return np.array(new_wyckoffs)"))
 V("C14", "side-centring merge by explicit symbols", "C14.getters", (SYM, "        if bravais_lattice[1] in [\"A\", \"B\", \"C\"]:", "        if bravais_lattice in (\"mC\", \"oC\", \"oA\"):"))
@@ -404,3 +408,19 @@ V("C01", "broad try/except around the region search", "R01.15", (SBC, "         
 V("C17", "classify swallows errors of the region search", "R17.7", (CLS, "            best_region = self.cross_validate_region(system, seed_indices, distances)\n", "            try:\n                best_region = self.cross_validate_region(system, seed_indices, distances)\n            except Exception:\n                best_region = None\n"))
 V("C17", "coverage strictly greater", "R17.2", (CLS, "covered = coverage >= self.min_coverage", "covered = coverage > self.min_coverage"))
 V("C08", "return_parameters forced on", "R08.4", (SYM, "            return_parameters=return_parameters,\n        )\n\n        return sets", "            return_parameters=True,\n        )\n\n        return sets"))
+
+# ------------------------------------------------------------------------------------------ block form of the normalizer application (round 7)
+_HOM_A = "            n_pos = len(system)\n            old_pos = np.empty((n_pos, 4))\n            old_pos[:, 3] = 1\n            old_pos[:, 0:3] = system.get_scaled_positions()\n"
+_HOM_B = "            transformed_positions = np.dot(old_pos, best_transformation_matrix.T)\n\n            # Get rid of the extra dimension of the homogeneous coordinates\n            transformed_positions = transformed_positions[:, 0:3]\n"
+_BLK_A = "            rotation = best_transformation_matrix[0:3, 0:3]\n            translation = best_transformation_matrix[0:3, 3]\n"
+for _pid in ("C06", "C07", "C08", "C11", "C12", "C14"):
+    V(_pid, "twin: block form R x + t with the positions read inline", "silent", (SYM, _HOM_A, _BLK_A),
+      (SYM, _HOM_B, "            transformed_positions = np.dot(system.get_scaled_positions(), rotation.T) + translation\n"))
+    V(_pid, "twin: block form R x + t", "silent", (SYM, _HOM_A, _BLK_A + "            old_pos = system.get_scaled_positions()\n"),
+      (SYM, _HOM_B, "            transformed_positions = np.dot(old_pos, rotation.T) + translation\n"))
+V("C06", "block form, positions inline, translation added before the rotation", "R06.8", (SYM, _HOM_A, _BLK_A),
+  (SYM, _HOM_B, "            transformed_positions = np.dot(system.get_scaled_positions() + translation, rotation.T)\n"))
+V("C07", "block form, positions inline, translation added before the rotation", "R07.6", (SYM, _HOM_A, _BLK_A),
+  (SYM, _HOM_B, "            transformed_positions = np.dot(system.get_scaled_positions() + translation, rotation.T)\n"))
+V("C05", "twin: block form with the translation rotated is still a proper rigid motion of the standardised atoms", "silent", (SYM, _HOM_A, _BLK_A),
+  (SYM, _HOM_B, "            transformed_positions = np.dot(system.get_scaled_positions() + translation, rotation.T)\n"))
